@@ -446,12 +446,29 @@ def try_from(R, ctx):
 
 
 def directory(R, ctx):
-    b = ctx.body(r'^writers::file_log_writer::builder::FileLogWriterBuilder::try_build_state$')
-    mk = [bb for bb, t in b.calls() if callee_name(t) == 'std::fs::create_dir_all']
-    chk = [bb for bb, t in b.calls() if callee_name(t) == 'std::fs::Metadata::is_dir']
-    new = [bb for bb, t in b.calls() if callee_name(t).endswith('state::State::new')]
-    ok = len(mk) == 1 and chk and new and all(C.dominates(b, mk[0], x) for x in new) and all(C.dominates(b, chk[0], x) for x in new)
-    p = ctx.ip.prov(b.path)
-    dir_ok = ok and any(r_[0] == 'call' and r_[1].endswith('FileSpec::get_directory') for r_ in p.op_roots(b.blocks[mk[0]]['term']['args'][0]))
-    R.check('R16.7', f"{b.path}|dir-before-state", bool(ok and dir_ok), "create_dir_all(spec directory) and the is_dir check dominate State::new",
-            "the log directory is not created and checked before the state is built", where=b.loc())
+    """decided on the rows of the builder function that hands the configuration to State::new (discovered by that effect, private helpers inlined):
+    on every row that reaches State::new, create_dir_all(<the spec's directory>) returned Ok and the is_dir test of that directory was true"""
+    import cfgwiring
+    f = ctx.f
+    b = cfgwiring.state_builder(ctx, 'R16.7')
+    NEW = r'file_log_writer::state::State::new$'
+    bad = None
+    n = 0
+    for r in FDI(f, effects=[NEW], no_inline=[NEW]).run(b.path):
+        if r.undecided:
+            raise CheckError(f"R16.7 {b.path}: UNDECIDED {r.undecided}")
+        if not any(re.search(NEW, e[0]) for e in r.effects):
+            continue
+        n += 1
+        mk = [(a_, v) for a_, v in r.cond if 'std::fs::create_dir_all(' in a_ and a_.startswith('variant(')]
+        chk = [(a_, v) for a_, v in r.cond if 'Metadata::is_dir(' in a_]
+        if not mk or any(v != 'Ok' for _a, v in mk):
+            bad = "the state is built on a path on which create_dir_all was not called / did not succeed"
+        elif not any(re.search(r'file_spec\.directory|get_directory', r.long(a_)) for a_, _v in mk):
+            bad = f"create_dir_all is called with {r.long(mk[0][0])[:80]}, not with the directory of the file spec"
+        elif not chk or any(v is not True for _a, v in chk):
+            bad = "the state is built without the is_dir check of the log directory having succeeded"
+    if n < 1:
+        raise CheckError(f"R16.7: State::new not reached on the rows of {b.path}")
+    R.check('R16.7', f"{b.path}|dir-before-state", not bad, f"{n} rows: create_dir_all(spec directory) = Ok and is_dir = true before State::new",
+            f"the log directory is not created and checked before the state is built: {bad}", where=b.loc())
